@@ -98,7 +98,7 @@ def extract(repo=None, force=False):
             (f for f in os.listdir(WORK) if f.startswith("facts-") and f.endswith(".json")),
             key=lambda f: os.path.getmtime(os.path.join(WORK, f)),
         )
-        keep = int(os.environ.get("VERIF_FACT_CACHE", "300"))  # the self-test analyses ~200 source variants; one fact file is ≈11 MB
+        keep = int(os.environ.get("VERIF_FACT_CACHE", "700"))  # the self-test analyses ~200 source variants; one fact file is ≈11 MB
         for f in olds[:-keep]:
             try:
                 os.remove(os.path.join(WORK, f))
